@@ -98,6 +98,10 @@ def main():
         if isinstance(n, ast.If) and isinstance(n.test, ast.Compare) and isinstance(n.test.left, ast.Name) and n.test.left.id == 'k' \
            and len(n.test.ops) == 1 and isinstance(n.test.ops[0], ast.Eq) and isinstance(n.test.comparators[0], ast.Constant):
             key = n.test.comparators[0].value
+            if key == 'attachments':
+                # branch added by the fix "similar concurrent cell inserts may differ in attachments"
+                found[key] = [ast.dump(x) for x in n.body]
+                continue
             stmts = [x for x in n.body if not isinstance(x, ast.Pass) and not (isinstance(x, ast.Expr) and isinstance(x.value, ast.Constant))]
             if len(stmts) != 1 or not isinstance(stmts[0], ast.Assign) or ast.dump(stmts[0].targets[0]) != ast.dump(ast.parse('cell[k] = 0').body[0].targets[0]):
                 raise GenError('similar-insert branch for %r is not a single `cell[k] = ...`' % key)
@@ -111,6 +115,22 @@ def main():
     if found.get('id') == expr('{"local_id": lcell[k], "remote_id": rcell[k]}'): simid = 'SimIdDict'
     elif found.get('id') == expr('lcell[k]'): simid = 'SimIdLocal'
     else: raise GenError("similar-insert branch for 'id' has an unrecognised right-hand side")
+    ATT = '''latt = lcell.get(k) or {}
+ratt = rcell.get(k) or {}
+cell[k] = {}
+for name in sorted(set(latt) | set(ratt)):
+    if name in latt and name in ratt and latt[name] != ratt[name]:
+        cell[k]["LOCAL_" + name] = latt[name]
+        cell[k]["REMOTE_" + name] = ratt[name]
+    elif name in latt:
+        cell[k][name] = latt[name]
+    else:
+        cell[k][name] = ratt[name]
+'''
+    if 'attachments' not in found: simatt = 'SimAttUnsupported'       # falls through to ValueError
+    elif found.pop('attachments') == snippet(ATT): simatt = 'SimAttKeepBoth'
+    else: raise GenError("similar-insert branch for 'attachments' has an unrecognised body")
+    found.pop('attachments', None)
     if set(found) != set(want) | {'id'}: raise GenError('similar-insert branches: unexpected key set %r' % sorted(found))
     # ---- record-conflict / attachments literals
     src = open(path, encoding='utf8').read()
@@ -133,7 +153,8 @@ def main():
            'From Coq Require Import List NArith String.', 'From NB Require Import Base.Json Diff.Codec.', 'Import ListNotations.',
            'Local Open Scope string_scope.', '',
            'Inductive marker_id_policy := MarkerIdAlways | MarkerIdIffPayload.',
-           'Inductive similar_id_policy := SimIdDict | SimIdLocal.', '',
+           'Inductive similar_id_policy := SimIdDict | SimIdLocal.',
+           'Inductive similar_att_policy := SimAttUnsupported | SimAttKeepBoth.', '',
            '(* nbformat.v4.new_markdown_cell(source=s) = {cell_type: markdown, metadata: {}, source: s} plus a fresh id iff: *)',
            'Definition new_markdown_cell_adds_id : bool := %s.' % coq_bool(has_id),
            '(* strategies.cell_marker *)',
@@ -144,7 +165,9 @@ def main():
            'Definition local_title : pystr := %s.' % coq_str(consts['local_title']),
            'Definition remote_title : pystr := %s.' % coq_str(consts['remote_title']),
            '(* strategies.resolve_strategy_inline_recurse, conflicting ids of similar inserts *)',
-           'Definition similar_insert_id : similar_id_policy := %s.' % simid, '']
+           'Definition similar_insert_id : similar_id_policy := %s.' % simid,
+           '(* the same builder, key attachments: no branch (ValueError) | both sides kept, differing ones as LOCAL_/REMOTE_ *)',
+           'Definition similar_insert_attachments : similar_att_policy := %s.' % simatt, '']
     write_if_changed('RenderFacts.v', '\n'.join(out) + '\n')
 
 
